@@ -131,14 +131,20 @@ class Sim(conc.Hooks):
             perm = lays[li]
             hs = [m + 1 + perm[i] for i in range(L)]
         else:
+            # explicit numbering with every displacement < capacity (the property's precondition): the number sent at
+            # position p lies in [p - dmax, p + dmax], so after n sends every queued number is <= n - 1 + dmax and
+            # every number <= n - 1 - dmax has been sent (hence is queued unless everybody read it)
+            dmax = (self.cap or 1) - 1
             hs = [fresh_int(tag + f"h{i}", 0, N_MAX) for i in range(L)]
             for i in range(L):
-                assume(sand(hs[i] > m, hs[i] <= n - 1))
+                assume(sand(hs[i] > m, hs[i] <= n - 1 + dmax))
                 if i:
                     assume(hs[(i - 1) // 2] < hs[i])  # heap order (numbers distinct)
                 for i2 in range(i):
                     assume(hs[i] != hs[i2])
-            # explicit numbering: every number that some subscriber has read beyond m is still queued;
+            for dd in range(1, self.lmax + 2):
+                assume(implies(m + dd <= n - 1 - dmax, sor(*[h == m + dd for h in hs]) if hs else False))
+            # every number that some subscriber has read beyond m is still queued;
             # number of sends = popped (m+1) + queued
             assume(n == m + 1 + L)
             for j in range(S):
@@ -206,14 +212,18 @@ class Sim(conc.Hooks):
         for j in range(S):
             prove(sand(r[j] >= -1, r[j] <= n - 1), label + f":r{j} in [-1,n-1]")
         m = smin(*r) if S > 1 else r[0]
+        # explicit numbering: a number may run ahead of its send position by up to dmax = capacity - 1
+        ahead = 0 if self.numbering == "default" else (self.cap or 1) - 1
         for i, (h, v) in enumerate(heap):
-            prove(sand(h > m, h <= n - 1), label + ":queued message already read by all / beyond n_sent")
+            prove(sand(h > m, h <= n - 1 + ahead), label + ":queued message already read by all / beyond n_sent")
             if i:
                 prove(heap[(i - 1) // 2][0] < h, label + ":heap order broken")
             if v is StopIteration:
                 prove(sand(h == n - 1, st["closed"]), label + ":end marker not last / not closed")
             else:
                 prove(v == payload(h), label + ":payload of a queued message changed")
+        if self.numbering != "default":
+            prove(n == m + 1 + len(heap), label + ":explicit: number of sends is not read-by-all + queued")
         if self.numbering == "default":
             prove(n - 1 - m == len(heap), label + ":queue is not exactly the unread messages")
             if len(heap) >= 3:
